@@ -6,6 +6,7 @@ import (
 	"os"
 	"sort"
 	"strings"
+	"time"
 
 	"github.com/tendermint/tendermint/consensus"
 	cstypes "github.com/tendermint/tendermint/consensus/types"
@@ -1221,13 +1222,37 @@ func (w *world) forgedLastCommit(like *Node, h int64) *types.Commit {
 		rounds = append(rounds, r)
 	}
 	sort.Slice(rounds, func(i, j int) bool { return rounds[i] < rounds[j] })
-	mode := rapid.SampledFrom([]string{"nil-round", "nil-round", "thin", "mixed"}).Draw(w.t, "flc.mode")
+	mode := rapid.SampledFrom([]string{"nil-round", "nil-round", "thin", "mixed", "quorum-plus-garbage", "quorum-plus-garbage"}).Draw(w.t, "flc.mode")
+
 	if len(rounds) == 0 && mode != "thin" {
 		mode = "thin"
 	}
 	sigs := make([]types.CommitSig, vals.Size())
 	round := seen.Round
 	switch mode {
+	case "quorum-plus-garbage":
+		copy(sigs, seen.Signatures)
+		var acc int64
+		total := vals.TotalVotingPower()
+		for i := range sigs { // in slot order: the early-exit variant stops at the first index where +2/3 is reached
+			p := vals.Validators[i].VotingPower
+			if acc*3 <= total*2 {
+				if sigs[i].ForBlock() {
+					acc += p
+				}
+				continue
+			}
+			switch rapid.IntRange(0, 2).Draw(w.t, "flc.garbage") {
+			case 0:
+				sigs[i] = types.CommitSig{BlockIDFlag: types.BlockIDFlagCommit, ValidatorAddress: vals.Validators[i].Address,
+					Timestamp: seen.Signatures[0].Timestamp.Add(time.Duration(rapid.Int64Range(-1e9, 1e12).Draw(w.t, "flc.ts"))), Signature: rapid.SliceOfN(rapid.Byte(), 64, 64).Draw(w.t, "flc.sig")}
+			case 1:
+				if len(sigs[i].Signature) > 0 {
+					sigs[i].Signature = append([]byte(nil), sigs[i].Signature...)
+					sigs[i].Signature[3] ^= 0x40
+				}
+			}
+		}
 	case "nil-round":
 		round = rounds[rapid.IntRange(0, len(rounds)-1).Draw(w.t, "flc.round")]
 		for i := range sigs {
@@ -1295,6 +1320,9 @@ func (w *world) structuredByzProposal(h int64, r int32, pk int, pat pattern) {
 		return
 	}
 	strat := rapid.SampledFrom([]string{"none", "new", "new", "new", "new", "reuse", "two", "two", "invalid", "stale", "forged-lastcommit"}).Draw(w.t, "bprop.strat")
+	if h > w.net.Cfg.InitialHeight && rapid.IntRange(0, 3).Draw(w.t, "bprop.flc") == 0 {
+		strat = "forged-lastcommit" // only possible above the first height: give it its share there
+	}
 	if f, ok := w.forced["bprop.strat"]; ok {
 		strat = f
 	}
